@@ -1,6 +1,7 @@
 package props
 
 import (
+	"sort"
 	"bytes"
 	"fmt"
 	"strings"
@@ -56,8 +57,20 @@ func (c c04Case) labels(fields []struct{ Name, Pos string }) []string {
 	if c.Flow != "" && c.Kind != "sso-flow" {
 		l = append(l, "flow="+c.Flow)
 	}
-	if c.ACSMode == "query" || c.Flow == "query-url" {
+	if c.ACSMode == "query" {
 		l = append(l, metaLabels("attr", "?tenant=1&x=y")...)
+	}
+	if c.Kind == "sso-flow" {
+		// the consumer URL of the registered entry reaches Destination / Recipient (signed attribute values)
+		seen := map[string]bool{}
+		for _, a := range ssoACSLists[c.Flow] {
+			for _, m := range metaLabels("attr", a.Location) {
+				if !seen[m] {
+					seen[m] = true
+					l = append(l, m)
+				}
+			}
+		}
 	}
 	return l
 }
@@ -126,6 +139,7 @@ type c04Verdict struct {
 	Class   string
 	Clauses []string
 	Detail  map[string]any
+	outOfDomainBinding bool // the stored record's binding is neither HTTP-POST nor HTTP-Redirect (injected records only)
 }
 
 // c04CheckResponse verifies the signature of a Success response delivered as m against cert.
@@ -142,6 +156,12 @@ func c04CheckResponse(rep *world.Reply, m *obs.Msg, cert interface{ Equal(any) b
 		resp := m.Response()
 		as := resp.Child("Assertion")
 		if as == nil || as.Child("Signature") == nil {
+			if v.outOfDomainBinding {
+				// C04 quantifies over stored requests with binding POST or Redirect (and what the SSO endpoint persisted): a record
+				// whose binding string is anything else is the integrator's; only "what is signed verifies" is judged there
+				v.Class += "/unsigned-for-a-stored-binding-outside-the-property"
+				return
+			}
 			bad("success-assertion-leaves-unsigned")
 			return
 		}
@@ -234,6 +254,7 @@ func c04Judge(c c04Case) c04Verdict {
 			v.Class += "/non-success"
 			return v
 		}
+		v.outOfDomainBinding = c.Binding != "" && c.Binding != "redirect"
 		c04CheckResponse(rep, m, nil, &v, []string{"Assertion"}, w, t.Host)
 	case "attrquery":
 		ap := aqP{}
@@ -371,6 +392,9 @@ func c04Judge(c c04Case) c04Verdict {
 		if c.SigAlg == "proto-redirect" {
 			p.ProtoB = "redirect"
 		}
+		if c.SigAlg == "proto-post" {
+			p.ProtoB = "post"
+		}
 		w, req, t := ssoBuild(p)
 		o := ssoRun(w, req)
 		if !o.Accepted {
@@ -473,10 +497,28 @@ func runC04(ctx Ctx) int {
 			}
 		}
 	}
-	for _, fl := range []string{"", "redirect-only", "post-only", "query-url", "three", "redirect-default+post"} {
+	// every ACS list shape of the shared generator (incl. white-space-padded / case-changed binding URIs and every other SAML binding)
+	var flows []string
+	for fl := range ssoACSLists {
+		flows = append(flows, fl)
+	}
+	sort.Strings(flows)
+	for _, fl := range flows {
 		for _, tr := range []string{"", "post"} {
 			cases = append(cases, c04Case{Kind: "sso-flow", Flow: fl, Binding: tr})
 			cases = append(cases, c04Case{Kind: "sso-flow", Flow: fl, Binding: tr, SigAlg: "proto-redirect"})
+			cases = append(cases, c04Case{Kind: "sso-flow", Flow: fl, Binding: tr, SigAlg: "proto-post"})
+		}
+	}
+	// stored records whose binding string is anything but the two exact URIs (the record is the integrator's)
+	for b := range cbBindings {
+		if b == "" || b == "redirect" {
+			continue
+		}
+		for _, a := range algs {
+			for _, am := range []string{"", "empty"} {
+				cases = append(cases, c04Case{Kind: "callback", Binding: b, SigAlg: a, ACSMode: am})
+			}
 		}
 	}
 	deadline := devx.Deadline(map[string]time.Duration{"quick": 5 * time.Minute, "thorough": 30 * time.Minute}[run.Tier])
